@@ -40,6 +40,30 @@ theorem asserts_taskOk {s st : St} {o li : Nat} {ob0 : Obj} {layer0 : Layer} {c 
   have := m3.1 (c, m) (h4 ▸ hc)
   exact ⟨⟨Γ, m1, this.1⟩, fun me hme => ⟨Γ, m1, by subst hme; simpa [WSOpt] using this.2⟩⟩
 
+/-- the layer indices of an object stay valid -/
+theorem asserts_li {s st : St} {o li : Nat} {ob0 ob' : Obj} {layer0 : Layer}
+    (hl0 : ob0.layers[li]? = some layer0) (hob : s.objs[o]? = some ob0) (hob' : st.objs[o]? = some ob')
+    (hS : S s st) : ∃ layer, ob'.layers[li]? = some layer := by
+  obtain ⟨ob1, k1, k2⟩ := hS.objs o ob0 hob
+  rw [hob'] at k1; cases k1
+  obtain ⟨y', hy1, _⟩ := getElem?_of_map_static k2 hl0
+  exact ⟨y', hy1⟩
+
+/-- a layer with an assert has a base environment -/
+theorem asserts_base {s st : St} {o li : Nat} {ob0 ob' : Obj} {layer0 layer' : Layer} {c : Expr × OptExpr}
+    (hl0 : ob0.layers[li]? = some layer0) (hc : c ∈ layer0.asserts) (hob : s.objs[o]? = some ob0)
+    (h2 : ob'.layers[li]? = some layer') (h1 : st.objs[o]? = some ob') (hI' : Inv st) (hS : S s st) :
+    layer'.baseEnv.isSome = true := by
+  obtain ⟨ob1, k1, k2⟩ := hS.objs o ob0 hob
+  rw [h1] at k1; cases k1
+  obtain ⟨y', hy1, hy2⟩ := getElem?_of_map_static k2 hl0
+  rw [h2] at hy1; cases hy1
+  obtain ⟨_, _, _, h4, _⟩ := staticLayer_eq hy2
+  refine (hI'.shape o ob' h1 layer' (mem_of_getElem? h2)).assertBase ?_
+  rw [h4]
+  intro hnil
+  rw [hnil] at hc; cases hc
+
 theorem asserts_taskOk_msg {s st st2 : St} {o li : Nat} {ob0 ob : Obj} {layer0 layer : Layer} {c : Expr}
     {m : OptExpr} {me : Expr} {env : EId} {d : Nat}
     (hl0 : ob0.layers[li]? = some layer0) (hc : (c, m) ∈ layer0.asserts) (hm : m = .some me)
@@ -81,8 +105,12 @@ theorem step_asserts (s : St) (o : OId) (d : Nat) (hI : Inv s) :
   all_goals vcprep
   all_goals first
     | eclose
-    | exact Inv.g (by assumption) |>.objs _ _ (by assumption) _ (by assumption)
+    | exact ⟨Inv.g (by assumption) |>.objs _ _ (by assumption) _ (by assumption),
+        Inv.shape (by assumption) _ _ (by assumption) _ (by assumption)⟩
     | grind
+    | exact asserts_li (zipIdx_split (by assumption)) (by assumption) (by assumption) (by schain)
+    | exact asserts_base (zipIdx_split (by assumption)) (mem_of_split (by assumption)) (by assumption)
+        (by assumption) (by assumption) (by assumption) (by schain)
     | exact (asserts_taskOk (zipIdx_split (by assumption)) (mem_of_split (by assumption)) (by assumption)
         ⟨_, _, by assumption, by assumption, by assumption⟩ (by assumption) (by schain)).1
     | exact asserts_taskOk_msg (zipIdx_split (by assumption)) (mem_of_split (by assumption)) (by assumption)
